@@ -203,6 +203,7 @@ def run(original_args) -> int:
     elapsed = datetime.datetime.now() - start
     elapsed_ms = int(elapsed.total_seconds() * 1000)
 
+    report_status = 0
     if argv.output:
         codetf = CodeTF.build(
             context,
@@ -210,7 +211,7 @@ def run(original_args) -> int:
             original_args,
             context.compile_results(codemods_to_run),
         )
-        codetf.write_report(argv.output)
+        report_status = codetf.write_report(argv.output)
 
     log_report(
         context,
@@ -218,7 +219,8 @@ def run(original_args) -> int:
         elapsed_ms,
         [] if not codemods_to_run else context.files_to_analyze,
     )
-    return 0
+    # write_report returns 2 when the report file could not be written
+    return 2 if report_status == 2 else 0
 
 
 def main():
